@@ -7,6 +7,10 @@ from ..helpers.resource_matcher import ResourceMatcher
 
 FIELDS_RE = re.compile(r'(\{[^\}]+\})')
 KEY_RE = re.compile(r'[^!:\}]+')
+# ends the text of every key field: it sorts before any other character, so that keys
+# compare field by field ('li' + 'zoe' after 'li' + 'amy' but before 'lin' + 'ann') and a
+# text is never ordered by what happens to follow it (the next field, the row number)
+FIELD_END = '\x00'
 
 
 class KeyCalc(object):
@@ -43,6 +47,7 @@ class KeyCalc(object):
                         ret += formatters[i].format(**{key: value})
                     else:
                         ret += str(value)
+                    ret += FIELD_END
                 return ret
             return func
         assert False, 'key should be either a format string or a row->string callable'
